@@ -62,7 +62,9 @@ pub fn spawn(ctx: &CheckCtx, replay: Option<(&str, &Value)>) -> Result<ShipResul
         return Err(format!("ship-profile binary {} not built (bin/check builds it)", bin.display()));
     }
     let mut cmd = std::process::Command::new(&bin);
-    cmd.args([ctx.prop.as_str(), ctx.tier.name(), "--seed", &ctx.seed.to_string(), "--ship-child"]);
+    // history properties and C20 scale their child with the tier themselves; every other child is the quick check
+    let tier = if ctx.prop == "C20" || crate::props::histprops::by_id(&ctx.prop).is_some() { ctx.tier.name() } else { "quick" };
+    cmd.args([ctx.prop.as_str(), tier, "--seed", &ctx.seed.to_string(), "--ship-child"]);
     cmd.env("VERIF_SHIP_CHILD", "1");
     if let Some((sub, case)) = replay {
         cmd.env("VERIF_SHIP_REPLAY", json!({ "sub": sub, "case": case }).to_string());
